@@ -133,3 +133,21 @@ void h_reshape_ctdst(void){
   ASSERT(rc == 1 && nc == 2 && c[0] == 2 && c[1] == 3, "all-constant reshape (1,3,2) -> (2,3) folded in the type system gives the run-time result");
   OBS(r); REACHED();
 }
+
+/* clipped VALUES: per-element repeats (each 1..3) as std::array / static_vector / tuple of clipped_size_t<3> with the same run-time values: same shape, same element, equal to np.repeat(a, reps, axis=0);
+ * index::cumsum of the three values in the three kinds equals the prefix sums */
+void h_repeat_clipped(void){
+  u32 d[6], out = 0, ref = 0; u64 reps[3], os[2] = {0,0}, rs[2] = {0,0}, cs[3] = {0,0,0};
+  for (int i = 0; i < 6; i++) d[i] = in_any32(); for (int i = 0; i < 3; i++) reps[i] = in_u64(1, 3);
+  u64 total = reps[0] + reps[1] + reps[2], i = in_u64(0, 8), j = in_u64(0, 1); ASSUME(i < total);
+  u32 kind = KA, build = BUILD;
+  int r0 = k_c9_repeat3(0, d, reps, i, j, rs, &ref);
+  int r = build ? k_c9_repeat3_utl(kind, d, reps, i, j, os, &out) : k_c9_repeat3(kind, d, reps, i, j, os, &out);
+  u64 row = i < reps[0] ? 0 : i < reps[0] + reps[1] ? 1 : 2;
+  ASSERT(r0 == 1 && rs[0] == total && rs[1] == 2 && ref == d[row*2 + j], "array repeats: np.repeat(a, reps, axis=0)");
+  ASSERT(r == 1 && os[0] == total && os[1] == 2, "shape independent of the container kind of repeats (incl. clipped values)");
+  ASSERT(out == ref, "element independent of the container kind of repeats (incl. clipped values)");
+  if (build) k_c9_cumsum3_utl(kind, reps, cs); else k_c9_cumsum3(kind, reps, cs);
+  ASSERT(cs[0] == reps[0] && cs[1] == reps[0] + reps[1] && cs[2] == total, "index::cumsum == prefix sums in every kind");
+  OBS(out); REACHED();
+}
